@@ -287,7 +287,7 @@ PROPS = {
         "modelled": ["client/manager.go scanHelper (which placements are wanted) on the store model, and the bookkeeping of scan / stop / exit / Stop as a labelled transition system (Siot/Model/Manager.lean); shape re-extracted every run (gen_manager_pinned)",
                      "timing is not modelled: 'once node changes quiesce' is rendered as: one scan after the last change, then the exits of the clients told to stop; the 5 s guards (client that ignores Stop, shutdown timer) and the 1-minute rescan are outside the model (the harness forces a scan)",
                      "that a child change reaches the client's subscription is C06/C08 (c07_children_current_kept takes the trigger as an event); the window before the subscription exists is the open finding",
-                     "newClientState returning an error (scan then dereferences a nil clientState) is not modelled and not generated"],
+                     "newClientState returning an error: modelled by the list `bad` of placements whose client cannot be constructed (scan skips them); the driver decides it with the decode model of C10/C11 on the harness's Vdev type; generated as a client node holding a `level` point keyed 'abc', '-1' or '1e3' from before its first placement"],
         "assumptions": [],
     },
     "C15": {
